@@ -180,6 +180,8 @@ pub struct Spec {
     /// not a function at all: the INVENTORY of a file - which types implement the given traits and which
     /// invocations of the given macros exist - as a `list (string * string)` (trait / macro name, type / arguments)
     pub inventory: Option<(Vec<&'static str>, Vec<&'static str>)>,
+    /// inventory kernels: also the `#[derive(..)]` lists of these structs (row: "derive <Struct>", the list)
+    pub inventory_derives: Vec<&'static str>,
     /// Coq type of the value of a (non-step) kernel, where it cannot be inferred (a bare `None` / `Err(..)`)
     pub annot: Option<&'static str>,
     /// translate only from the first top-level statement whose token string (or `let` initialiser) starts with this
@@ -266,7 +268,7 @@ fn base(module: &'static str, group: &'static str, file: &'static str, name: &'s
         recv_groups: vec![], id_methods: vec![], skip_as: vec![], rewrite: vec![], ctors: vec![], argsel: vec![],
         skip_loops: false, ret_wrap: None, note: "",
         type_params: vec![], recv_arg: vec![], break_value: false, loop_cond: false, effects_ret: false, with_locals: vec![],
-        ptr_checked: false, closure_params: vec![], after_loop: None, skip_lets: vec![], iter_fold: None, via: None, positions: vec![], attr_filter: None, inventory: None, annot: None, from: None,
+        ptr_checked: false, closure_params: vec![], after_loop: None, skip_lets: vec![], iter_fold: None, via: None, positions: vec![], attr_filter: None, inventory: None, inventory_derives: vec![], annot: None, from: None,
     }
 }
 
@@ -1090,6 +1092,12 @@ pub fn table() -> Vec<Spec> {
         t.push(mk("stdout_write_volatile", "write_volatile", Loc::Impl { ty: "Stdout", tr: Some("WriteVolatile"), f: "write_volatile" }, "write_volatile_raw_fd"));
         let mut s = base("Io", "IoFd", ifile, "io_inventory", "(inventory)", Loc::Free("(inventory)"));
         s.inventory = Some((vec!["ReadVolatile", "WriteVolatile"], vec!["impl_read_write_volatile_for_raw_fd"]));
+        t.push(s);
+        // the address newtypes compare as their u64: GuestAddress / MemoryRegionAddress DERIVE Eq, PartialEq, Ord, PartialOrd
+        // and no hand-written impl of those traits exists in the file
+        let mut s = base("Guest", "GuestInv", gfile, "address_inventory", "(inventory)", Loc::Free("(inventory)"));
+        s.inventory = Some((vec!["PartialOrd", "Ord", "PartialEq", "Eq"], vec!["impl_address_ops"]));
+        s.inventory_derives = vec!["GuestAddress", "MemoryRegionAddress"];
         t.push(s);
         // NewBitmap::with_len: AtomicBitmap::new(len, page size from sysconf), len unchanged
         let mut s = base("AtomicBitmap", "AtomicBitmap", "src/bitmap/backend/atomic_bitmap.rs", "with_len", "with_len", Loc::Impl { ty: "AtomicBitmap", tr: Some("NewBitmap"), f: "with_len" });
